@@ -308,7 +308,10 @@ def case_fn(ctx, inp):
     elif fn == "average":
         got, exp = U.run_both(lambda: U.sync_compute(da.ma.average(x, axis=inp.get("axis"))), lambda: np.ma.average(a, axis=inp.get("axis")))
     else:
-        got, exp = U.run_both(lambda: U.sync_compute(getattr(da.ma, fn)(x, *args)), lambda: getattr(np.ma, fn)(a, *args))
+        kw = inp.get("kw", {})
+        got, exp = U.run_both(lambda: U.sync_compute(getattr(da.ma, fn)(x, *args, **kw)), lambda: getattr(np.ma, fn)(a, *args, **kw))
+        if kw:
+            ctx.branch(fn + " with keywords")
         fill = fn.startswith("masked_") and isinstance(a, np.ma.MaskedArray)
     exact = fn not in ("average",)
     compare(ctx, fn, got, exp, exact, U.fsum_abs(np.ma.getdata(a)), fill=fill)
@@ -567,6 +570,8 @@ def generate(ctx):
         if rng.random() < 0.15:
             shape = (rng.randint(5, 12),)
         chunks = U.rand_chunks(rng, shape, zero_p=0.05)
+        if rng.random() < 0.08:
+            shape, chunks = U.big_shape_chunks(rng)
         op = rng.choice(RED)
         axis = rng.choice(_axis_choices(len(shape)))
         se = rng.choice([None, None, 2, 3, 4])
@@ -596,6 +601,12 @@ def generate(ctx):
             inp["args"] = [v1, v2]
         elif fn in ("masked_equal", "masked_greater", "masked_greater_equal", "masked_less", "masked_less_equal", "masked_not_equal", "masked_values"):
             inp["args"] = [rng.randint(-2, 2)]
+            if fn == "masked_values" and a["dtype"] == "float64":
+                # values at the edge of the rtol / atol tolerances, and the tolerances themselves as keywords
+                v = inp["args"][0]
+                deltas = [0.0, 1e-9, -1e-9, 1e-7, -5e-6, 5e-6, 2e-5, -2e-5, 1e-3]
+                a["data"] = [(v + rng.choice(deltas) * max(1, abs(v))) if rng.random() < 0.5 else d for d in a["data"]]
+                inp["kw"] = rng.choice([{}, {}, {"rtol": 1e-3}, {"rtol": 0.0, "atol": 1e-3}, {"atol": 0.0}, {"shrink": False}])
         elif fn == "set_fill_value":
             inp["args"] = [rng.choice([0, 3, -9])]
         elif fn == "fix_invalid":
